@@ -32,6 +32,9 @@ pub enum E {
     DelayReq,
     AnnounceReceipt,
     Bmca,
+    /// transmit timestamp of the oldest outstanding Sync (sent while the port was master; may be
+    /// reported after the port has gone faulty)
+    XSync,
 }
 
 #[derive(Clone, Debug, serde::Serialize, serde::Deserialize)]
@@ -119,6 +122,7 @@ pub fn run_case(rep: &mut Report, case: &Case, verbose: bool) {
     let resp_src = [Src::new(clock_id(20).0, 1), Src::new(clock_id(21).0, 4)];
     let mut rxs: Vec<Rx> = vec![];
     let mut pending: Vec<(usize, TimestampContext)> = vec![];
+    let mut pending_sync: Vec<TimestampContext> = vec![];
     let mut seen = rec.as_ref().map(|r| r.lock().unwrap().events.len()).unwrap_or(0);
     let mut clock_now = base;
     let clock = node.clock.clone();
@@ -174,6 +178,13 @@ pub fn run_case(rep: &mut Report, case: &Case, verbose: bool) {
                 let m = resp_src[1].pdelay_resp(r.seq, true, units_to_ts(clock_now / 3), someone, 5);
                 Some(Call::EventRx(m.encode(), time_from_units(clock_now)))
             }
+            E::XSync => {
+                if pending_sync.is_empty() {
+                    continue;
+                }
+                let ctx = pending_sync.remove(0);
+                Some(Call::TxTimestamp(ctx, time_from_units(clock_now + rng.gen_range(0..(1u128 << 34)))))
+            }
             E::AnnounceTimer => Some(Call::AnnounceTimer),
             E::SyncTimer => Some(Call::SyncTimer),
             E::DelayReq => {
@@ -211,6 +222,12 @@ pub fn run_case(rep: &mut Report, case: &Case, verbose: bool) {
                 Act::SendEvent { ctx, data, .. } => {
                     if let Ok(m) = Msg::decode(&data) {
                         tx_types.push(m.hdr.msg_type);
+                        if m.hdr.msg_type == T_SYNC {
+                            if let Some(c) = ctx {
+                                pending_sync.push(c);
+                            }
+                            continue;
+                        }
                         if m.hdr.msg_type == T_PDELAY_REQ {
                             let t2a = clock_now + rng.gen_range(0..(1u128 << 40));
                             let t2b = clock_now + rng.gen_range(0..(1u128 << 40));
@@ -429,8 +446,22 @@ pub fn run(rep: &mut Report, tier: &str, seed: u64, shard: (u32, u32), replay: O
             }
         }
     }
+    // a Sync is in flight when the fault is detected; its transmit timestamp arrives afterwards
+    if shard.0 == 0 {
+        for v in 0..16u64 {
+            let mut script = vec![E::SyncTimer, E::T];
+            if v & 1 != 0 {
+                script.push(E::X);
+            }
+            script.extend_from_slice(if v & 2 != 0 { &[E::R(0), E::R(1)] } else { &[E::R(1), E::F(1), E::R(0)] });
+            script.extend_from_slice(&[E::XSync, E::AnnounceTimer, E::SyncTimer, E::XSync, E::T, E::X, E::X, E::R(0), E::F(0)]);
+            let case = Case { seed: seed.wrapping_add(7000 + v), script, two_step: [v & 4 != 0, v & 8 != 0], start_state: 1, base_kind: (v % 4) as u8, kalman: false };
+            count(rep, &case);
+            enumerated += 1;
+        }
+    }
     rep.extra.insert("enumerated_scripts".into(), json!(enumerated));
-    let full = [E::T, E::X, E::R(0), E::F(0), E::R(1), E::F(1), E::ROld(0), E::FOld(1), E::ROld(1), E::ROther, E::AnnounceTimer, E::SyncTimer, E::DelayReq, E::AnnounceReceipt, E::Bmca, E::T, E::X, E::R(0), E::F(0)];
+    let full = [E::T, E::X, E::R(0), E::F(0), E::R(1), E::F(1), E::ROld(0), E::FOld(1), E::ROld(1), E::ROther, E::AnnounceTimer, E::SyncTimer, E::SyncTimer, E::XSync, E::DelayReq, E::AnnounceReceipt, E::Bmca, E::T, E::X, E::R(0), E::F(0)];
     let n: u64 = if tier == "thorough" { 400_000 } else { 60_000 };
     let budget = Budget::new(n, if tier == "thorough" { 600.0 } else { 15.0 });
     let mut i = 0;
